@@ -46,6 +46,9 @@ def conventional_plus(r, idx):
     lk = main.message("LookupThingRequest")
     lk.field("name", 1, "string", required=True).field("region", 2, "string", required=True).field("limit", 3, "int32", required=True)
     lk.field("view", 4, "string")
+    # REQUIRED query parameters of every scalar kind the required-fields table distinguishes (the emitted *_rest_required_fields tests)
+    lk.field("revision", 5, "int64", required=True).field("big", 6, "uint64", required=True).field("flag", 7, "bool", required=True)
+    lk.field("ratio", 8, "double", required=True).field("fx", 9, "fixed64", required=True).field("small", 10, "sint32", required=True)
     lkr = main.message("LookupThingResponse"); lkr.field("found", 1, "bool")
     # every scalar shape the emitted response assertions distinguish: repeated bool / double / float / enum-free ints / bytes / strings
     lkr.field("bits", 10, "bool", repeated=True).field("weights", 11, "double", repeated=True).field("ratio", 12, "float")
